@@ -68,6 +68,15 @@ def generate(rng, tier):
         cases.append({"x": [0.01 * j for j in range(m)], "y": [math.sin(0.013 * j) * (1.0 + 1e-4 * j) for j in range(m)], "writer": w, "explicit": bool(w % 2),
                       "stem": "long", "fn": w % 3, "over_longer": False, "long": True,
                       "desc": {"writer": WRITERS[w][0], "explicit_name": bool(w % 2), "n": m, "grid_x": True, "replaces_a_longer_file": False}})
+    # files written as a side effect of the workflow steps (fourier_filter, apply_lorch, the Keen outputs): each must read back as the curve
+    # the instance holds under the corresponding title
+    for i in range(3 if tier == "quick" else 18):
+        nq = 6 + 3 * (i % 4)
+        q = [round(0.3 + 0.1 * j, 2) for j in range(nq)]
+        cases.append({"implicit": True, "q": q, "sq": [1.0 + math.sin(3.0 * v) * math.exp(-v / 3.0) + 0.01 * ((7 * j + i) % 5) for j, v in enumerate(q)],
+                      "dr": [0.05 * (j + (i % 2)) for j in range(8 + i % 5)], "mat": {"rho": 0.02 + 0.01 * i, "bcoh": 1.5 + 0.5 * (i % 3), "btot": 2.0 + i},
+                      "fn": i % 3, "lowq": bool(i % 2), "cutoff": 0.2 + 0.05 * (i % 3), "lorch_flag": False, "gq": None, "stem": ["run", "a_b.c", "x1"][i % 3],
+                      "desc": {"writer": "workflow side effects", "fn": SL.FNS[i % 3], "n": nq}})
     # re-ingestion of a written merged S(Q)
     for i in range(4 if tier == "quick" else 30):
         cfg = SL.gen_config(rng, global_window=False)
@@ -99,6 +108,27 @@ def run_impl(pystog, case):
             rx, ry = np.loadtxt("m.sq", skiprows=2, comments="#", unpack=True, ndmin=2)
             return {"x": q.tolist(), "y": sq.tolist(), "bytes": list(text), "rx": rx.tolist(), "ry": ry.tolist(),
                     "q2": q2.tolist(), "sq2": sq2.tolist()}
+        if case.get("implicit"):
+            from . import c12 as W
+            st = W.make_stog(pystog, case)
+            st.stem_name = case["stem"]
+            st.transform_merged()
+            qf, sqf, rf, gf = st.fourier_filter()
+            rl, gl = st.apply_lorch(qf, sqf, rf)
+            st._add_keen_fq(qf, sqf)
+            st._add_keen_gr(rl, gl)
+            files = sorted(os.path.relpath(os.path.join(dp, f), ".") for dp, _, fs in os.walk(".") for f in fs)
+            parts = []
+            for _, dom, title_attr, default in WRITERS[2:]:
+                fn_ = default.format(stem=case["stem"])
+                title = getattr(st, title_attr)
+                xs_ = np.asarray((st.q_master if dom == "q" else st.r_master)[title], float)
+                ys_ = np.asarray((st.sq_master if dom == "q" else st.gr_master)[title], float)
+                text = open(fn_, "rb").read() if os.path.exists(fn_) else b""
+                rx, ry = np.loadtxt(fn_, skiprows=2, comments="#", unpack=True, ndmin=2) if text else (np.array([]), np.array([]))
+                parts.append({"file": fn_, "x": xs_.tolist(), "y": ys_.tolist(), "bytes": list(text), "rx": np.asarray(rx, float).tolist(),
+                              "ry": np.asarray(ry, float).tolist()})
+            return {"implicit": parts, "files": files, "y": [v for p_ in parts for v in p_["y"]]}
         name, dom, title_attr, default = WRITERS[case["writer"]]
         st = pystog.StoG(**{"RealSpaceFunction": SL.FNS[case["fn"]], "Outputs": {"StemName": case["stem"]}})
         title = getattr(st, title_attr)
@@ -130,6 +160,9 @@ def run_impl(pystog, case):
 
 
 def to_coq(case, res):
+    if "exception" not in res and case.get("implicit"):
+        return [("chk_codec", ([p_["x"], p_["y"], p_["rx"], p_["ry"]], [], p_["bytes"], [])) for p_ in res["implicit"]
+                if p_["bytes"] and p_["x"] and all(v == v and abs(v) != float("inf") for v in p_["y"])]
     if "exception" in res or case.get("long") or not res.get("bytes") or len(res.get("x", [])) == 0 or any(v != v or abs(v) == float("inf") for v in res.get("y", [])):      # (an empty curve: header only, decided by the oracle)
         return None
     return ([res["x"], res["y"], res["rx"], res["ry"]], [], res["bytes"], [])
@@ -149,9 +182,25 @@ def oracle(pystog, case, res):
     and merged reproduces the grid exactly and the values within 5e-13"""
     if "exception" in res:
         return "raised %s: %s" % (res["exception"], res["message"])
+    if case.get("implicit"):
+        want = sorted(p_["file"] for p_ in res["implicit"])
+        if res["files"] != want:
+            return "the workflow steps wrote %r, expected %r" % (res["files"], want)
+        worst = None
+        for p_ in res["implicit"]:
+            msg = check_file({}, p_)
+            if msg and msg.startswith("literal 5e-13"):
+                worst = worst or msg
+            elif msg:
+                return "%s (written by a workflow step): %s" % (p_["file"], msg)
+        return worst
     if not case.get("reingest"):
         if res["files"] != [res["expect"]]:
             return "%s wrote %r, expected the single file %r" % (WRITERS[case["writer"]][0], res["files"], res["expect"])
+    return check_file(case, res)
+
+
+def check_file(case, res):
     text = bytes(res["bytes"]).decode("latin1")
     lines = text.split("\n")
     if lines[-1] != "":
